@@ -4,6 +4,7 @@ import (
 	"context"
 	"crypto/tls"
 	"encoding/json"
+	"errors"
 	"fmt"
 	"net/http"
 	"time"
@@ -16,6 +17,10 @@ const (
 
 	defaultDataTimeout = 5 * time.Second
 )
+
+// errInvalidInfo is returned when the root endpoint answers with valid JSON
+// that is not an object (e.g. null), so there is no cluster info to report
+var errInvalidInfo = errors.New("elastic: info response is not a JSON object")
 
 type ScanResult struct {
 	ScanType string                 `json:"scan"`
@@ -84,6 +89,11 @@ func (s *Scanner) Scan(ctx context.Context, r *scan.Request) (result scan.Result
 	// retrieve main info
 	var info map[string]interface{}
 	if info, err = s.elastic.GetInfo(ctx, host); err != nil {
+		return
+	}
+	// JSON null decodes into a nil map without any error
+	if info == nil {
+		err = errInvalidInfo
 		return
 	}
 	// retrieve all indexes with aliases ignoring error
